@@ -1,5 +1,7 @@
-(* MDCPDP: the full-strength statements are FALSE of the code as it is ([as_is]); concrete witnesses, by computation.
-   Every witness is replayed on the real environment by vt/envs/mdcpdp.py (same instance, same actions). *)
+(* MDCPDP, HISTORY: the full-strength statements were FALSE of the code as it was before the repairs of 2026-10-01
+   ([as_is]); concrete witnesses, by computation.  The running code is [repaired] (Harness/HMDCPDP.v: current_code);
+   every witness is still replayed on the real environment on every run by vt/envs/mdcpdp.py (same instance, same
+   actions) and would be reported under its old signature if the defect returned. *)
 From Coq Require Import ZArith List Bool Lia Arith.
 From RL4CO Require Import Base.Num Base.EnvSig Spec.MultiDepotPD Env.MDCPDP Env.MDCPDPDefs Env.MDCPDPProofs.
 Import ListNotations.
@@ -57,6 +59,13 @@ Qed.
 Theorem md_dead_end_without_solvable :
   exists i acts, md_wfb i = true /\ md_solvableb i = false /\ md_good as_is i = true /\ adm (E:=EA) i acts = true /\
                  done EA i (run (E:=EA) i acts) = false /\ anyb (mask EA i (run (E:=EA) i acts)) = false.
+Proof. exists (inst 1 2 [0] (unit_dist 3) 0), [0%nat]. repeat split; vm_compute; reflexivity. Qed.
+
+(* the same for the current code: the hypothesis is needed *)
+Theorem md_dead_end_without_solvable_repaired :
+  exists i acts, md_wfb i = true /\ md_solvableb i = false /\ adm (E:=MDCPDP exact repaired) i acts = true /\
+                 done (MDCPDP exact repaired) i (run (E:=MDCPDP exact repaired) i acts) = false /\
+                 anyb (mask (MDCPDP exact repaired) i (run (E:=MDCPDP exact repaired) i acts)) = false.
 Proof. exists (inst 1 2 [0] (unit_dist 3) 0), [0%nat]. repeat split; vm_compute; reflexivity. Qed.
 
 (* start_mode="random": current_depot starts at a random depot r.  With the generator's one-column capacity the first
@@ -117,6 +126,6 @@ Theorem md_row_independent_refuted :
      md_reward exact as_is (with_batch i false l0) (run (E:=EA) (with_batch i false l0) acts) = Some (-300).
 Proof. exists w_ret, [0; 100; 100; 100], [0; 1; 2; 0]%nat. repeat split; vm_compute; reflexivity. Qed.
 
-(* (5) reward_mode = "lateness_square" is accepted by the constructor and documented, but _get_reward raises *)
-Theorem md_reward_lateness_square_raises : forall A F i s, mode i = 3%nat -> md_reward A F i s = None.
-Proof. intros A F i s H. unfold md_reward. rewrite H. reflexivity. Qed.
+(* (5) reward_mode = "lateness_square" was accepted by the constructor and documented, but _get_reward raised *)
+Theorem md_reward_lateness_square_raised : forall A i s, mode i = 3%nat -> md_reward A as_is i s = None.
+Proof. intros A i s H. unfold md_reward. rewrite H. reflexivity. Qed.
